@@ -951,6 +951,86 @@ fn zst_value_twins(out: &mut ShardOut, rng: &mut Rng, kind: Kind, histories: u64
     }
 }
 
+
+/// Single `resize` calls that discard tens of thousands of entries (thresholds such as 32768
+/// or 65536 in one call). The per-step snapshots of the history engine are quadratic at that
+/// size, so this battery judges the outcome of the one call: returned count, callback log
+/// (every discarded pair, least recent first), survivors and their order, the bound being
+/// enforced by the next put, and the object registry after the cache is gone.
+fn giant_resize_battery(out: &mut ShardOut, prop: &str) {
+    use caches::{Cache, PutResult, RawLRU, ResizableCache};
+    for &(n, cut) in &[(40_000u32, 39_900u32), (33_000, 32_768), (33_000, 32_769), (70_000, 65_537), (140_000, 100_000)] {
+        reg_reset();
+        cb_take();
+        let r = guarded(|| -> Option<String> {
+            let mut c: RawLRU<TKey, TVal, LogCb, DynBH> = RawLRU::with_on_evict_cb_and_hasher(n as usize, LogCb, DynBH::new(HKind::Fnv)).ok()?;
+            for k in 0..n {
+                c.put(TKey::new(k), TVal::new(k as u64 + 1));
+            }
+            let touched = [0u32, 5, 17, n / 2];
+            for t in touched {
+                c.get(&KNum(t));
+            }
+            // least recent first
+            let mut order: Vec<u32> = (0..n).filter(|k| !touched.contains(k)).collect();
+            order.extend(touched);
+            if !cb_take().is_empty() {
+                return Some("callbacks while filling a cache that never overflowed".into());
+            }
+            let ret = c.resize((n - cut) as usize);
+            let log = cb_take();
+            let what = format!("resize({}) of a full cache of {} entries", n - cut, n);
+            if matches!(prop, "C06" | "C01") && ret != cut as u64 {
+                return Some(format!("{} returned {} (expected {})", what, ret, cut));
+            }
+            if matches!(prop, "C06" | "C01") && (c.len() != (n - cut) as usize || c.cap() != (n - cut) as usize) {
+                return Some(format!("{}: len() = {}, cap() = {} afterwards", what, c.len(), c.cap()));
+            }
+            if prop == "C15" {
+                let exp: Vec<(u32, u64)> = order[..cut as usize].iter().map(|k| (*k, *k as u64 + 1)).collect();
+                if log != exp {
+                    let i = log.iter().zip(exp.iter()).position(|(a, b)| a != b).unwrap_or(log.len().min(exp.len()));
+                    return Some(format!("{}: callback log has {} entries (expected {}), first difference at #{}: {:?} vs expected {:?}", what, log.len(), exp.len(), i, log.get(i), exp.get(i)));
+                }
+            }
+            if prop == "C06" {
+                let left: Vec<u32> = c.iter_lru().map(|(k, _)| k.n.0).collect();
+                if left != order[cut as usize..] {
+                    return Some(format!("{}: {} survivors, the first few (least recent first) {:?}, expected {:?}", what, left.len(), &left[..left.len().min(5)], &order[cut as usize..cut as usize + 5]));
+                }
+                match c.put(TKey::new(n + 1), TVal::new(7)) {
+                    PutResult::Evicted { key, .. } if key.n.0 == order[cut as usize] => {}
+                    other => return Some(format!("{}: the next put of a new key gave {:?}-like result instead of evicting key {}", what, std::mem::discriminant(&other), order[cut as usize])),
+                }
+            }
+            if prop == "C04" {
+                let (lk, lv) = reg_live();
+                if lk != c.len() as u64 || lv != c.len() as u64 {
+                    return Some(format!("{}: {} keys / {} values alive, len() = {}", what, lk, lv, c.len()));
+                }
+            }
+            drop(c);
+            if prop == "C04" {
+                let (lk, lv) = reg_live();
+                if lk != 0 || lv != 0 {
+                    return Some(format!("{}: {} keys / {} values alive after the cache was dropped", what, lk, lv));
+                }
+                if let Some(e) = reg_take_errors().first() {
+                    return Some(format!("{}: {}", what, e));
+                }
+            }
+            None
+        });
+        cb_take();
+        out.cov.monitored += n as u64 + 8;
+        out.cov.triples.insert(format!("giant-resize|{}|{}", n, cut));
+        if let Ok(Some(d)) = r {
+            out.add(simple_found(prop, "giant-resize", d));
+            return;
+        }
+    }
+}
+
 /// the engine-based check of one property on one shard
 pub fn engine_suite(ctx: &Ctx) -> ShardOut {
     let mut out = ShardOut::default();
@@ -973,6 +1053,9 @@ pub fn engine_suite(ctx: &Ctx) -> ShardOut {
         let mut r = Rng::new(mix(ctx.seed, 0xC0_25) ^ ctx.shard);
         let kind = kinds_for(&ctx.prop)[0];
         zst_value_twins(&mut out, &mut r, kind, 1500);
+    }
+    if matches!(ctx.prop.as_str(), "C01" | "C04" | "C06" | "C15") && ctx.shard == 0 && !cfg!(miri) && matches!(ctx.variant.as_str(), "dbg-std" | "rel-std" | "dbg-nostd" | "rel-nostd") {
+        giant_resize_battery(&mut out, &ctx.prop);
     }
     if ctx.prop == "C12" && ctx.shard == 0 {
         putresult_structural(&mut out);
@@ -1051,6 +1134,14 @@ pub fn engine_suite(ctx: &Ctx) -> ShardOut {
             let r = run_history(&cfg, kt, &ops, &opts, &mut out.cov);
             out.notes.bump("huge-history");
             record(&mut out, &cfg, kt, &ops[..r.steps_done.min(ops.len())], &opts, r.violations);
+        }
+        if kinds.contains(&Kind::Arc) {
+            let (cfg, ops, uni) = crate::gen::arc_large_scripts(ctx.shard as usize);
+            let mut opts = RunOpts::new(props, uni);
+            opts.lookup_audit = false;
+            let r = run_history(&cfg, KeyType::Tracked, &ops, &opts, &mut out.cov);
+            out.notes.bump("arc-large-script");
+            record(&mut out, &cfg, KeyType::Tracked, &ops[..r.steps_done.min(ops.len())], &opts, r.violations);
         }
     }
 
@@ -1135,8 +1226,15 @@ pub fn engine_suite(ctx: &Ctx) -> ShardOut {
         opts.lookup_audit = props.c03 && rng.chance(1, 2);
         opts.seeds = [rng.next(), rng.next(), rng.next(), rng.next()];
         opts.record_sample = out.cov.samples.len() < 4;
-        if matches!(prop, "C01" | "C03" | "C04") && matches!(kind, Kind::Lru | Kind::Slru | Kind::Wtlfu) && rng.chance(1, 3) {
-            opts.clone_swap_at = Some(rng.below(ops.len() as u64) as usize);
+        if matches!(prop, "C01" | "C03" | "C04" | "C06" | "C07" | "C10" | "C12" | "C15") && matches!(kind, Kind::Lru | Kind::Slru | Kind::Wtlfu) && rng.chance(1, 3) {
+            // continue on a clone from some point on - now and then from a point where the
+            // cache is empty (the very beginning, right after a purge)
+            let after_purge: Vec<usize> = ops.iter().enumerate().filter(|(_, o)| matches!(o, Op::Purge | Op::Resize(0))).map(|(i, _)| i + 1).collect();
+            opts.clone_swap_at = Some(match rng.below(4) {
+                0 => 0,
+                1 if !after_purge.is_empty() => *rng.pick(&after_purge),
+                _ => rng.below(ops.len() as u64) as usize,
+            });
         }
         let r = run_history(&cfg, kt, &ops, &opts, &mut out.cov);
         done += r.steps_done.max(1) as u64;
